@@ -103,6 +103,28 @@ def retrieveBoth {α : Type} (fv : FiltV α) (mem : Int → α) (v : View) (i j 
   | some (some off) => some (mem (s.it.data + FilterIter.elemOffset fv.astrides off))
   | _ => none
 
+/-! ### purity: which buffer reaches a native kernel that overwrites an array argument
+
+`Generated/CopyGuards.lean: inplaceSites` lists EVERY call of such a kernel in the Python sources with the provenance of the
+buffer the wrapper hands over. `siteTarget` says what that buffer is when the caller did NOT ask for in-place operation
+(`out=None`, `inline/inplace/in_place=False`): a fresh array for `fresh` (allocated or copied in the wrapper) and `out`
+(`_get_output` allocates when no `out` is given; with `out=` the kernel works on the caller's OUTPUT, which is asked for),
+the copy-guard decision (`inplaceTarget false`) for a helper / flag listed in `copyGuards`, the caller's array otherwise. -/
+
+def siteTarget (guards : List (String × String × List String)) (site : String × String × String × String) : Target :=
+  let kind := site.2.2.1
+  let detail := site.2.2.2
+  if kind == "fresh" || kind == "out" then .copy
+  else if kind == "guarded" then
+    match guards.find? (fun g => g.1 == detail) with
+    | some g => inplaceTarget false g.2.2
+    | none => .user
+  else if kind == "flag" then
+    match guards.find? (fun g => g.1 == site.1 && g.2.1 == detail) with
+    | some g => inplaceTarget false g.2.2
+    | none => .user
+  else .user
+
 /-! ### driver: `c08 kind=kviewA kernel=… amem= abase= ashape= astrides= bmem= bbase= bshape= bstrides= n= min=` -/
 
 def handleViewsA (a : Args) : String :=
